@@ -173,11 +173,17 @@ impl TypeCheckable for FunctionCall {
 
 impl fmt::Display for FunctionCall {
     fn fmt(&self, f: &mut fmt::Formatter<'_>) -> fmt::Result {
-        let builtin = std_fn_to_string(self);
-        if let Some(string) = builtin {
-            return write!(f, "{}", string);
-        }
+        // always the call syntax: the literal spelling of a builtin (`0..=3` for
+        // `range(0, 3, true)`) is only valid where an iterator is expected, and is
+        // written there by `FunctionCall::to_iterator_string`
         write!(f, "{}", default_rooc_function_to_string(self))
+    }
+}
+
+impl FunctionCall {
+    /// The function call as it is written in iterator position (`i in 0..=3`).
+    pub fn to_iterator_string(&self) -> String {
+        std_fn_to_string(self).unwrap_or_else(|| self.to_string())
     }
 }
 
